@@ -214,11 +214,14 @@ def _try_one(ex, c, qual, names, conc, args0, cz, call):
     st = State(ex2)
     memo = {}
     if getattr(c, 'native_only', False):
-        why = c.native_post(dict(zip(names, snapshot)), result)
+        why = c.native_post(dict(zip(names, snapshot),
+                                 **{'$after': dict(zip(names, inputs))}),
+                            result)
         info['status'] = 'reproduced' if why else 'not-reproduced'
         if why:
             info['failed_clauses'] = ['spec-function: ' + str(why)[:300]]
         return info
+    # entry state (snapshot taken before the call): requires and `old`
     A = {n: embed(ex2, v, memo) for n, v in zip(names, snapshot)}
     for k, v in args0.items():
         if k not in A:
@@ -230,6 +233,10 @@ def _try_one(ex, c, qual, names, conc, args0, cz, call):
         # ghosts without a model value stay universally quantified
         for k, v in c.ghosts(ex2, st, 'proof', {}).items():
             A.setdefault(k, v)
+    # ghost texts (`src`) are used as sequences by the contract clauses
+    for k in list(A):
+        if k not in names and isinstance(A[k], str):
+            A[k] = sym.lift_str(A[k])
     st.ghost.update({k: v for k, v in A.items() if k not in names})
     A2 = dict(A)
     A2['$ex'], A2['$st'] = ex2, st
@@ -239,7 +246,17 @@ def _try_one(ex, c, qual, names, conc, args0, cz, call):
             info['status'] = 'not-reproduced'
             info['why'] = 'concretised input violates requires:' + lab
             return info
-    c.check_post(ex2, st, A, embed(ex2, result, memo))
+    if c.olds:
+        try:
+            A['old'] = c.olds(A2)
+        except Exception:      # noqa
+            pass
+    # exit state: the (possibly mutated) argument objects after the call
+    memo2 = {}
+    for n, v in zip(names, inputs):
+        if not isinstance(v, (int, str, bool, float, type(None))):
+            A[n] = embed(ex2, v, memo2)
+    c.check_post(ex2, st, A, embed(ex2, result, memo2))
     failed = []
     for ob in ex2.obligations:
         ok = closed_valid(ob.pc, ob.goal)
@@ -249,7 +266,8 @@ def _try_one(ex, c, qual, names, conc, args0, cz, call):
     if native is not None and not failed:
         # executable form of the contract's functional spec (the loop body
         # contract unrolled): the property's sentence as a spec function
-        why = native(dict(zip(names, snapshot)), result)
+        why = native(dict(zip(names, snapshot),
+                          **{'$after': dict(zip(names, inputs))}), result)
         if why:
             failed.append('spec-function: ' + str(why)[:200])
     if failed:
